@@ -70,19 +70,32 @@ pub(crate) const fn fast_rem_by_normalized_dword(
     }
     /*@ proof {
         assert(valn(words@, 0) == 0 && pw(0) == 1);
+        assert(val(words@) == valn(words@, n));
+        let h = q0 * d + r0;
         if i == 2 {
             let t = words@[0] as int;
-            let h = q0 * d + r0;
             let a = t + r0 * B();
             lemma_dd_rem_step(h, q0, d, r0, t, a, B());
             qacc = q0 * B() + a / d;
             vstd::arithmetic::div_mod::lemma_mod_bound(a, d);
             assert(pw(1) == B() * pw(0));
+            assert(pw(1) == B());
             assert(valn(words@, 1) == valn(words@, 0) + t * pw(0));
+            assert(t * pw(0) == t) by (nonlinear_arith) requires pw(0) == 1;
+            assert(valn(words@, 1) == t);
             assert(h * pw(1) == h * B()) by (nonlinear_arith) requires pw(1) == B();
+            assert(valn(words@, n) - valn(words@, 1) == h * pw(1));
+            assert(valn(words@, n) == h * B() + t);
+            assert(rem as int == a % d);
+            assert(val(words@) == qacc * d + rem as int);
         } else {
-            assert((q0 * d + r0) * 1 == q0 * d + r0);
+            assert(i == 1);
+            assert(h * pw(0) == h) by (nonlinear_arith) requires pw(0) == 1;
+            assert(valn(words@, n) - valn(words@, 0) == h * pw(0));
+            assert(rem as int == r0 && qacc == q0);
+            assert(val(words@) == qacc * d + rem as int);
         }
+        assert(0 <= (rem as int) < d);
         vstd::arithmetic::div_mod::lemma_fundamental_div_mod_converse(val(words@), d, qacc, rem as int);
     } @*/
 
